@@ -21,6 +21,9 @@ def build(H, tier, seed):
     D.vc_getitem(H, 'UnaryOperatorDict')
     D.vc_call_binary(H)
     D.vc_unary_call(H)
+    from contracts import codegen_glue_c as G
+    G.vc_do_codegen(H)
+    G.vc_func_builder(H)
     from contracts import options_c as O
     O.vc_options(H)
 
